@@ -29,9 +29,33 @@ def launch(ctx, binary, role, inp, tag, tmp):
     return fout
 
 
+def replay_mode(ctx, tmp):
+    """bin/check C02 --replay <file>: the block / chain of the violation file on A and two B processes; exit 1 iff they differ"""
+    import sys
+    obj = json.load(open(ctx.replay_in))["replay"]
+    binary = ctx.go_test_bin("core/validation", harness="b_replica")
+    if not binary or obj.get("bootstrap"):
+        print("REPLAY: re-run bin/check C02")
+        sys.exit(2)
+    inp = {"variants": VARIANTS, "blocks": [obj["block"]] if "block" in obj else [], "chains": [obj["chain"]] if "chain" in obj else []}
+    fa = launch(ctx, binary, "TestVerifReplicaA", inp, "rA", tmp)
+    fb = fa and launch(ctx, binary, "TestVerifReplicaB", dict(inp, afile=fa), "rB", tmp)
+    if not fb:
+        sys.exit(2)
+    A, B = vf.read_ndjson(fa), vf.read_ndjson(fb)
+    bad = False
+    for a, b in zip(A[1:], B[1:]):
+        same = a.get("digest") == b.get("digest") and not b.get("addErr") and a.get("err") == b.get("err")
+        print("REPLAY %s A=%s B=%s %s" % ("same" if same else "DIFFERENT", json.dumps(a.get("digest"))[:500], json.dumps(b.get("digest"))[:500], b.get("addErr", "")))
+        bad = bad or not same
+    sys.exit(1 if bad else 0)
+
+
 def run(ctx):
     tmp = tmpdir(ctx)
     try:
+        if ctx.replay_in:
+            replay_mode(ctx, tmp)
         _run(ctx, tmp)
     finally:
         shutil.rmtree(tmp, ignore_errors=True)
